@@ -261,9 +261,9 @@ func suiteOverlap() hlib.Suite {
 
 func suites(tier string) []hlib.Suite {
 	if tier == "quick" {
-		return []hlib.Suite{suiteOneWorker(2), suiteTwoWorkers(), suiteOverlap()}
+		return []hlib.Suite{suiteOneWorker(3), suiteTwoWorkers(), suiteOverlap()}
 	}
-	return []hlib.Suite{suiteOneWorker(3), suiteTwoWorkers(), suiteOverlap()}
+	return []hlib.Suite{suiteOneWorker(4), suiteTwoWorkers(), suiteOverlap()}
 }
 
 func main() { hlib.EnumMain("C07", suites) }
